@@ -366,6 +366,25 @@ pub fn membership_invariants(m: &AutosarModel) -> Vec<Problem> {
                 out.push(p("C03", "iter|file-dfs-max-depth-differs", format!("{} max {max}", f.filename().display())));
             }
         }
+        // the text of the file contains exactly the elements attributed to it and loads on its own
+        match f.serialize() {
+            Err(e) => out.push(p("C10", "text|file-cannot-be-serialized", format!("{}: {e}", f.filename().display()))),
+            Ok(text) => {
+                let m2 = AutosarModel::new();
+                match m2.load_buffer(text.as_bytes(), "alone.arxml", false) {
+                    Err(e) => out.push(p("C10", "text|file-does-not-load-on-its-own", format!("{}: {e}", f.filename().display()))),
+                    Ok(_) => {
+                        let shape = |v: &[(usize, Element)]| -> Vec<(usize, String, Option<String>)> {
+                            v.iter().map(|(d, e)| (*d, e.element_name().to_string(), e.character_data().map(|c| c.to_string()))).collect()
+                        };
+                        let alone: Vec<(usize, Element)> = walk(&m2);
+                        if shape(&alone) != shape(&expect_view) {
+                            out.push(p("C10", "text|file-text-differs-from-the-elements-attributed-to-it", format!("{}: {} vs {} elements", f.filename().display(), alone.len(), expect_view.len())));
+                        }
+                    }
+                }
+            }
+        }
     }
     for (_, e) in &w {
         if !covered.contains(e) {
